@@ -135,8 +135,10 @@ def run(ctx, rep):
             if utext(lp2.target) != "order":
                 continue
             n_l += 1
-            dd = [s for s in walk_nodes(mw.node.body, ast.Assign) if utext(s.targets[0]) == utext(lp2.iter)]
-            rep.check(bool(dd) and all(utext(s.value) == "self._sort_orders(live_orders)" for s in dd), "R3",
+            # the iterable, directly or through the local(s) that name it
+            dd = [s.value for s in walk_nodes(mw.node.body, ast.Assign) if utext(s.targets[0]) == utext(lp2.iter)] \
+                if isinstance(lp2.iter, ast.Name) else [lp2.iter]
+            rep.check(bool(dd) and all(utext(v) == "self._sort_orders(live_orders)" for v in dd), "R3",
                       key(mw, lp2.iter, "the matcher iterates the sorted orders"), mw, lp2)
     rep.floor("R3", "matching loops", n_l, 2)
 
